@@ -12,10 +12,9 @@ theorem translated_deriveJailSentence : translated "x/valset/keeper.deriveJailSe
 
 theorem translated_calculateJailSentenceResetThreshold : translated "x/valset/keeper.calculateJailSentenceResetThreshold" = true := by decide
 
-/-- C12 `deriveJailSentence`: the Go loop over `jailSentences` is the model's sentence schedule -/
+/-- C12 `deriveJailSentence`: the Go search loop over `jailSentences` is the model's sentence schedule -/
 theorem deriveJailSentence_eq (d : Int) : Translated.deriveJailSentence d = KeepAlive.deriveSentence d := by
-  simp only [Translated.deriveJailSentence, KeepAlive.deriveSentence, KeepAlive.minute, Id.run]
-  simp only [List.forIn_cons, List.forIn_nil, bind, decide_eq_true_eq]
+  simp only [Translated.deriveJailSentence, KeepAlive.deriveSentence, KeepAlive.minute, Id.run, List.find?_cons, List.find?_nil]
   by_cases h1 : d < 60000000000
   · simp [h1]
   · by_cases h2 : d < 300000000000
